@@ -93,6 +93,19 @@ CHECKS = {
         note='Bounded string length / tree size; a line break before an infix operator is treated as unspecified '
              '(joined value or SYNTAX_ERROR accepted); transformer composition is checked under C05.',
         design='5/C06'),
+    'C07': dict(
+        engine='spec/SectionDoc.tla, spec/SectionDocExport.tla',
+        technique='TLC generation of every test-case file (sequence of line kinds, with included files) by the '
+                  'documented reader as a transition function + replay of every document through the real test-case '
+                  'parser and, for error locations, the CLI',
+        text='TLC enumerates every main file up to a line bound over 15 line kinds and, with four including-directives, '
+             'combinations with candidate included files (cycles, nested inclusion, errors inside), checks location, '
+             'merge-order and first-error invariants and exports per document the instruction elements of every phase '
+             'with file, first line, line count and inclusion chain, or the error with its location; the real parser '
+             'must produce exactly these.',
+        note='Bounded document length; block-permutation invariance is not yet an invariant of the model; D11 '
+             '(incomplete instruction takes the next non-empty line) is an open known finding with an input signature.',
+        design='5/C07'),
 }
 
 NOT_YET = 'check not built yet (planned in DESIGN.md section 5); no claim is made'
